@@ -255,6 +255,7 @@ type small struct {
 	mtimeMethod      string
 	sizeCompared     bool
 	cmpText          string
+	cmpOps           []string
 	intSetErrOp      string
 	defaults         [][2]string
 	defaultsComplete bool
@@ -359,6 +360,16 @@ func main() {
 					if strings.Contains(txt, "last_file_time") && strings.Contains(txt, "==") && !strings.Contains(txt, "-1") && !strings.Contains(txt, " 0") {
 						sm.sizeCompared = strings.Contains(txt, "Size()") || strings.Contains(txt, "last_file_size")
 						sm.cmpText = txt
+						sm.cmpOps = nil
+						ast.Inspect(x.Cond, func(m ast.Node) bool {
+							if be, ok := m.(*ast.BinaryExpr); ok {
+								switch be.Op {
+								case token.EQL, token.NEQ, token.LSS, token.LEQ, token.GTR, token.GEQ:
+									sm.cmpOps = append(sm.cmpOps, be.Op.String())
+								}
+							}
+							return true
+						})
 					}
 				}
 				return true
@@ -473,6 +484,8 @@ func main() {
 	fmt.Fprintf(&b, "/-- reload: the \"is change?\" test also compares stat.Size() -/\ndef sizeCompared : Bool := %v\n\n", sm.sizeCompared)
 	fmt.Fprintf(&b, "/-- reload: the \"is change?\" test as written (\"no change\" when it holds) -/\ndef sameVersionTest : String := %s\n\n", leanStr(sm.cmpText))
 	fmt.Fprintf(&b, "/-- GetIntSet: operator of the err test guarding the append (\"==\" keeps the valid integers) -/\ndef intSetErrOp : String := %s\n\n", leanStr(sm.intSetErrOp))
+	fmt.Fprintf(&b, "/-- reload: the comparison operators of that test -/\ndef sameVersionOps : List String := [%s]\n\n", joinQuoted(sm.cmpOps))
+	fmt.Fprintf(&b, "/-- options.go WithConfigObserver: the field is assigned the caller's registry itself (the parameter), not something derived from it -/\ndef observerStoredDirectly : Bool := %v\n\n", observerDirect(filepath.Join(dir, "options.go")))
 	b.WriteString("/-- the table assigned by ApplyDefault -/\ndef defaults : List (String × String) := [\n")
 	for i, d := range sm.defaults {
 		sep := ","
@@ -543,3 +556,35 @@ func exprText(e ast.Node) string {
 }
 
 func stmtText(s ast.Node) string { return exprText(s) }
+
+// observerDirect: inside WithConfigObserver(obj …) every assignment to a field named configObserver has
+// the bare parameter as its right-hand side (and there is at least one).
+func observerDirect(goFile string) bool {
+	fset := token.NewFileSet()
+	f, err := parser.ParseFile(fset, goFile, nil, 0)
+	if err != nil {
+		return false
+	}
+	found, ok := false, true
+	for _, d := range f.Decls {
+		fd, isFn := d.(*ast.FuncDecl)
+		if !isFn || fd.Name.Name != "WithConfigObserver" || fd.Body == nil || len(fd.Type.Params.List) == 0 || len(fd.Type.Params.List[0].Names) == 0 {
+			continue
+		}
+		param := fd.Type.Params.List[0].Names[0].Name
+		ast.Inspect(fd.Body, func(n ast.Node) bool {
+			as, isAs := n.(*ast.AssignStmt)
+			if !isAs || len(as.Lhs) != 1 || len(as.Rhs) != 1 {
+				return true
+			}
+			if sel, isSel := as.Lhs[0].(*ast.SelectorExpr); isSel && sel.Sel.Name == "configObserver" {
+				found = true
+				if id, isId := as.Rhs[0].(*ast.Ident); !isId || id.Name != param {
+					ok = false
+				}
+			}
+			return true
+		})
+	}
+	return found && ok
+}
